@@ -482,6 +482,115 @@ def corr_word(ctx, h, nletters, model_in, expect):
     ctx.traces += 1
 
 
+def _kspec(spec):
+    return spec_line(spec)[len('cmd exec '):]
+
+
+def corr_kword(ctx, h, nletters, model_in, expect):
+    """words whose commands are `Compound`s of 0-3 Set/Add/Remove/Move sub-commands — on purpose often on the *same*
+    feature of the same object, so that what a sub-command remembers from `can_execute` (asked of all of them before any
+    runs) and what it meets when it runs differ — on the real stack and on the Lean `kstep` (Model/Compound.lean),
+    letter by letter: outcome class, stack cursor and length, whole model state"""
+    rng = common.sub_rng(ctx.seed, 'C06-kcorr', h)
+    mm = storecheck.shape_mm(rng, h // 3) if h % 3 == 0 else store.gen_mm(rng)
+    cw = CmdWorld(mm)
+    w = cw.w
+    C = cw.C
+    g = store.Gen(rng, mm, w, max_objs=6)
+    model_in.append('reset'); expect.append(None)
+    for l in w.mm_lines():
+        model_in.append(l); expect.append(None)
+    lines = []
+    for _ in range(10):
+        line = g.next_op()
+        if line.startswith('delete'):
+            continue
+        rec = w.apply(line)
+        lines.append(line)
+        model_in.append(line); expect.append((h, mm, lines[:], rec + ' | ' + w.dump()))
+    for step in range(nletters):
+        k = rng.random()
+        before = w.dump()
+        n0 = cw.stack.stack_index
+        if k < .6:
+            size = rng.choice([0, 1, 1, 2, 2, 2, 3, 3])
+            specs = []
+            for _ in range(size):
+                want = specs[-1][1:3] if specs and rng.random() < .6 else None      # the same (object, feature) again
+                for _try in range(12):
+                    c = gen_cmd(rng, mm, w, depth=2 if size == 1 else 1)
+                    if c is None or c[0][0] in ('Delete', 'Compound'):
+                        continue
+                    if want is not None and tuple(c[0][1:3]) != tuple(want):
+                        continue
+                    specs.append(c[0])
+                    break
+            if len(specs) != size:
+                continue
+            line = 'kcmd exec ' + ' ;; '.join(_kspec(sp) for sp in specs)
+            cmds = None
+            try:
+                cmds = [cw.build(sp) for sp in specs]
+                comp = C.Compound(*cmds)
+                can = comp.can_execute
+            except Exception:
+                can = None
+            if can is None:
+                out = 'raised'
+            elif not can:
+                out = 'cannot'
+            else:
+                try:
+                    cw.stack.execute(comp)
+                    out = 'ok'
+                except Exception:
+                    out = 'raised'
+            ctx.count(f'kcorr/compound-of-{size}/{out}')
+            same = len({tuple(sp[1:3]) for sp in specs}) < len(specs)
+            if same:
+                ctx.count('kcorr/sub-commands-on-one-feature')
+            # a negative index that stayed negative after `+= len` (Python would count it from the end a second time):
+            # the model stops with `corner`; so does this word
+            if can and _corner(cmds, C, out):
+                out = 'corner'
+        else:
+            line = 'kcmd undo' if k < .82 else 'kcmd redo'
+            try:
+                (cw.stack.undo if line.endswith('undo') else cw.stack.redo)()
+            except Exception:
+                pass
+            out = 'ok' if cw.stack.stack_index != n0 else 'noop'
+            ctx.count('kcorr/' + line.split()[1] + '/' + out)
+        lines.append(line)
+        model_in.append(line)
+        expect.append((h, mm, lines[:], ('K', out, f'n={cw.stack.stack_index + 1} len={len(cw.stack.stack)} | {w.dump()}')))
+        ctx.evaluations += 1
+        if out != 'ok' and w.dump() != before:
+            break      # half-run execute / undo / redo: the sub-commands have changed what they remember
+        if out == 'corner':
+            break
+    ctx.traces += 1
+
+
+def _corner(cmds, C, out):
+    for c in cmds:
+        idx = c.index if isinstance(c, C.Remove) else (c.from_index if isinstance(c, C.Move) else None)
+        if getattr(c, '_executed', False):
+            if isinstance(idx, int) and idx < 0:
+                return True
+        else:
+            # the first sub-command that did not complete: the one that raised (its index is adjusted first thing)
+            return out == 'raised' and isinstance(idx, int) and idx < 0
+    return False
+
+
+def knorm(got):
+    """model record of a `kcmd` line -> (outcome class, rest)"""
+    word, _, rest = got.partition(' ')
+    cls = {'ok': 'ok', 'cannot': 'cannot', 'raises': 'raised', 'exec-raised': 'raised', 'corner': 'corner'}.get(word, 'noop')
+    return cls, rest
+
+
 INTERFERING = [
     # (name, builder of the sub-commands from (C, a, b1, b2, k1, k2))
     ('Add then Remove of the same element', lambda C, a, b1, b2, k1, k2: [C.Add(a, 'bs', b2), C.Remove(a, 'bs', value=b2)]),
@@ -571,12 +680,18 @@ def run(ctx):
     model_in, expect = [], []
     for h in range(n):
         corr_word(ctx, h, nl, model_in, expect)
+    for h in range(n):
+        corr_kword(ctx, 1000000 + h, nl, model_in, expect)
     out = common.run_driver('store', model_in)
     bad = set()
     for line, exp, got in zip(model_in, expect, out):
         if exp is None:
             continue
         h, mm, lines, want = exp
+        if isinstance(want, tuple):
+            cls, rest = knorm(got)
+            got = f'{cls} {rest}' if want[1] != 'corner' else cls
+            want = f'{want[1]} {want[2]}' if want[1] != 'corner' else 'corner'
         if h not in bad and got != want:
             bad.add(h)
             if len(ctx.divergences) < 20:
